@@ -221,6 +221,57 @@ func scJailRaiseUnjail(w *sim.World) {
 	w.Run()
 }
 
+// scShortenUnstakingTime: X begins unstaking under a long UnstakingTime -> governance shortens it -> Y begins unstaking
+// (its completion time is earlier than X's, which is already queued) -> time passes Y's completion: Y is paid, X is not.
+func scShortenUnstakingTime(w *sim.World) {
+	x, y := freeActor(w, 0), freeActor(w, 1)
+	o := w.ParamOwner("pos/UnstakingTime")
+	if x == nil || y == nil || o == nil {
+		w.Run()
+		return
+	}
+	cp := sim.ParamsOf(w.View())
+	for _, a := range []*sim.Actor{x, y} {
+		w.Reserved[a.AddrHex()] = true
+		defer delete(w.Reserved, a.AddrHex())
+	}
+	setU := func(d time.Duration) {
+		w.Force("set-unstaking-time", func() *sim.TxSpec {
+			return w.Honest(o, govTypes.MsgChangeParam{FromAddress: o.Addr, ParamKey: "pos/UnstakingTime", ParamVal: sim.JSONOf(d)})
+		})
+	}
+	setU(24 * time.Hour)
+	w.Force("stake-x", stakeTx(w, x, 2*cp.Min))
+	w.Force("stake-y", stakeTx(w, y, 3*cp.Min))
+	if !w.Block() {
+		return
+	}
+	w.Step(5)
+	w.Force("x-begin-unstake", unstakeTx(w, x))
+	if !w.Block() {
+		return
+	}
+	w.Step(5)
+	setU(2 * time.Minute)
+	if !w.Block() {
+		return
+	}
+	w.Step(5)
+	w.Force("y-begin-unstake", unstakeTx(w, y))
+	if !w.Block() {
+		return
+	}
+	for _, d := range []int64{119, 1, 1, 30} { // one second before, exactly at, after Y's completion
+		w.Step(d)
+		if !w.Block() {
+			return
+		}
+	}
+	delete(w.Reserved, x.AddrHex())
+	delete(w.Reserved, y.AddrHex())
+	w.Run()
+}
+
 // scenarioFor returns a deterministic script for some case indices (coverage guarantees) together with the
 // parameter constraints the script needs, nil otherwise.
 func scenarioFor(prop string, i int, r *sim.Rand) (func(w *sim.World), func(p *sim.Profile)) {
@@ -238,6 +289,18 @@ func scenarioFor(prop string, i int, r *sim.Rand) (func(w *sim.World), func(p *s
 				p.Pos.MinSignedPerWindow = sdk.NewDecWithPrec(5, 1)
 				p.Pos.SlashFractionDowntime = []sdk.Dec{sdk.NewDecWithPrec(1, 2), sdk.NewDecWithPrec(5, 1), sdk.NewDecWithPrec(1, 1)}[i/8%3]
 				p.Pos.DowntimeJailDuration = time.Duration([]int64{60, 120, 600}[i/8%3]) * time.Second
+			}
+		case 7:
+			if prop != "C06" {
+				break
+			}
+			return scShortenUnstakingTime, func(p *sim.Profile) {
+				p.NSecp = 1 // no multisig actors: the parameter's owner is the plain governance key, funded from genesis
+				p.CustomPos = true
+				if p.Pos.SignedBlocksWindow == 0 {
+					p.Pos = sim.SmallWindowPos(r)
+				}
+				p.Pos.MaxValidators = 100000
 			}
 		case 5:
 			if prop != "C09" && prop != "C06" && prop != "C05" {
